@@ -25,7 +25,8 @@ namespace foonathan
     {
         namespace detail
         {
-            // kinds: 1 load, 2 store, 3 exchange, 4 compare-exchange, 5 compare-exchange result,
+            // kinds: 1 load, 2 store, 3 exchange, 4 compare-exchange (third argument: sizeof the operand),
+            // 5 compare-exchange result (third argument),
             // 10 thread-local stack pointer set, 11 thread exit detector, 12 nifty counter, 13 list destroyed
             template <typename T>
             class verif_atomic
@@ -36,7 +37,7 @@ namespace foonathan
 
                 T load() const noexcept
                 {
-                    foonathan_memory_verif_point(1, this, 0);
+                    foonathan_memory_verif_point(1, this, static_cast<long>(sizeof(T)));
                     return a_.load();
                 }
                 operator T() const noexcept
@@ -45,7 +46,7 @@ namespace foonathan
                 }
                 void store(T v) noexcept
                 {
-                    foonathan_memory_verif_point(2, this, 0);
+                    foonathan_memory_verif_point(2, this, static_cast<long>(sizeof(T)));
                     a_.store(v);
                 }
                 T operator=(T v) noexcept
@@ -55,12 +56,12 @@ namespace foonathan
                 }
                 T exchange(T v) noexcept
                 {
-                    foonathan_memory_verif_point(3, this, 0);
+                    foonathan_memory_verif_point(3, this, static_cast<long>(sizeof(T)));
                     return a_.exchange(v);
                 }
                 bool compare_exchange_strong(T& expected, T desired) noexcept
                 {
-                    foonathan_memory_verif_point(4, this, 0);
+                    foonathan_memory_verif_point(4, this, static_cast<long>(sizeof(T)));
                     auto res = a_.compare_exchange_strong(expected, desired);
                     foonathan_memory_verif_point(5, this, res);
                     return res;
